@@ -152,7 +152,10 @@ impl Property for C06 {
 
     fn generate(&self, rng: &mut Rng, _thorough: bool) -> J {
         let mut cfg = sqlgen::gen_table_cfg(rng);
-        while !sqlgen::noise_possible(&cfg) {
+        // one case in eight keeps whatever configuration comes, including those for which every line is a
+        // row (a DEFAULT column and no NOT NULL): they exercise the "a declared DEFAULT counts" half of the rule
+        let admission_only = rng.chance(1, 8);
+        while !admission_only && !sqlgen::noise_possible(&cfg) {
             cfg = sqlgen::gen_table_cfg(rng);
         }
         let lc = sqlgen::gen_line_cfg(rng);
@@ -184,8 +187,13 @@ impl Property for C06 {
         }
         let n_rows = rng.range(1, 8) as usize;
         let mut items: Vec<J> = (0..n_rows).map(|_| spec_to_json(&sqlgen::gen_line_spec(rng, &cfg, &lc))).collect();
+        if admission_only || rng.chance(1, 4) {
+            // a line on which no field is present at all (no pattern matches / empty JSON object)
+            let pos = rng.below(items.len() + 1);
+            items.insert(pos, spec_to_json(&sqlgen::LineSpec { k: None, n: None, r: None, b: false, d: None }));
+        }
         // noise: single lines, adjacent runs, first/last positions
-        let n_noise = rng.range(1, 5) as usize;
+        let n_noise = if sqlgen::noise_possible(&cfg) { rng.range(1, 5) as usize } else { 0 };
         for _ in 0..n_noise {
             let pos = match rng.below(5) {
                 0 => 0,
@@ -426,6 +434,7 @@ impl Property for C06 {
         out.probe("noise_last_line", (!admitted[admitted.len() - 1]) as u64);
         out.probe("noise_across_file_boundary", split.iter().any(|s| (*s > 0 && !admitted[*s - 1]) || (*s < admitted.len() && !admitted[*s])) as u64);
         out.probe(&format!("kind_{}", kind), 1);
+        out.probe("default_only_row_admitted", items.iter().zip(expected_rows.iter()).any(|(it, e)| matches!(it, Item::Row(s) if s.k.is_none() && s.n.is_none() && s.r.is_none() && !s.b && s.d.is_none()) && e.is_some()) as u64);
 
         // --- follow mode twins
         if jbool(case, "follow") && !join {
